@@ -13,6 +13,11 @@
 //!   (0.3 .. 2.5 s), then reads slowly or at full speed; the other end reads that to end-of-stream, writes
 //!   64 KiB .. 3 MiB, half-closes and closes.  The late reader must get every byte and then a clean
 //!   end-of-stream, never a reset (a direct connection keeps delivering after the writer's close).
+//!   Optimistic data (`early=<n>`, `hello=joined`): the local client writes the first n bytes of its upload in the
+//!   same write as the last message of its handshake (SOCKS4/4a request, SOCKS5 request or greeting + request,
+//!   HTTP CONNECT header), reads the proxy's replies only then and goes on with the rest; n = 1 .. 70 000, also
+//!   exactly what fills a 512-byte / 8 KiB parse buffer together with the request; the upload shorter than, equal
+//!   to, longer than n.  Same rules: every byte at the target, in order, exactly once.
 //! * udp: 1-4 local UDP clients x tagged echo targets through the UDP remotes or SOCKS5 UDP
 //!   associations; every reply at exactly the originating socket, from the address it sent to,
 //!   payload unmodified, (SOCKS5) behind a well-formed RFC 1928 header.
@@ -396,7 +401,7 @@ const EARLY_ENTRIES: [Entry; 8] = [
 /// as long as, and longer than the early part.
 fn early_pass(r: &mut Rng, tier: Tier) -> Vec<Scn> {
     let mut all: Vec<TcpScn> = vec![];
-    let mut mk = |r: &mut Rng, entry: Entry, mode: Mode, early: usize, up: usize, joined: bool, slow_ms: u64| {
+    let mk = |r: &mut Rng, entry: Entry, mode: Mode, early: usize, up: usize, joined: bool, slow_ms: u64| {
         let down = match mode {
             Mode::Echo | Mode::ClientDrops => 0,
             _ => *r.pick(&[0usize, 1, 100, 513, 8193]),
@@ -406,25 +411,29 @@ fn early_pass(r: &mut Rng, tier: Tier) -> Vec<Scn> {
         let upc = chunk_for(r, rest);
         let downc = chunk_for(r, down);
         let seed = r.next() % 1_000_000_000;
-        all.push(TcpScn { entry, mode, up, down, upc, downc, slow_ms, seed, rcvbuf: 0, pace_ms: 0, early, hello_joined: joined && entry.is_socks5() });
+        TcpScn { entry, mode, up, down, upc, downc, slow_ms, seed, rcvbuf: 0, pace_ms: 0, early, hello_joined: joined && entry.is_socks5() }
     };
     let longer = [1usize, 513, 8193, 65_536];
     match tier {
         Tier::Quick => {
-            // six per entry point kind (seven for the SOCKS5 kinds: the boundary one in both variants)
+            // seven per entry point kind (eight for the SOCKS5 kinds: the one near 512 in both variants)
             let start = r.below(4) as usize;
             for (i, e) in EARLY_ENTRIES.iter().enumerate() {
                 let near_512 = [499usize, 500, 512, 513][(start + i) % 4];
                 let j = |k: usize| (i + k) % 2 == 0;
-                mk(r, *e, Mode::Echo, 1, 1, j(0), 0);
-                mk(r, *e, Mode::ClientFirst, [37usize, 24, 64][i % 3], 513, j(1), 0);
-                mk(r, *e, Mode::Echo, near_512, near_512 + longer[(i + 2) % 4], j(0), 0);
+                all.push(mk(r, *e, Mode::Echo, 1, 1, j(0), 0));
+                all.push(mk(r, *e, Mode::ClientFirst, [37usize, 24, 64][i % 3], 513, j(1), 0));
+                all.push(mk(r, *e, Mode::Echo, near_512, near_512 + longer[(i + 2) % 4], j(0), 0));
                 if e.is_socks5() {
-                    mk(r, *e, Mode::Duplex, near_512, near_512 + longer[(i + 1) % 4], j(1), 0);
+                    all.push(mk(r, *e, Mode::Duplex, near_512, near_512 + longer[(i + 1) % 4], j(1), 0));
                 }
-                mk(r, *e, Mode::ClientDrops, 4096, 4096, j(1), 0);
-                mk(r, *e, [Mode::Duplex, Mode::Echo][i % 2], [20_000usize, 9000, 70_000][i % 3], 65_536 + [20_000usize, 9000, 70_000][i % 3], j(0), 0);
-                mk(r, *e, Mode::ClientFirst, [512usize, 4096, 600][i % 3], [100usize, 300, 499][i % 3], j(1), 0);
+                all.push(mk(r, *e, Mode::ClientDrops, 4096, 4096, j(1), 0));
+                // handshake + payload fill an 8 KiB buffer exactly, one byte less, one more; 8 KiB of payload
+                let hs = tcp::last_handshake_write_len(*e, j(0) && e.is_socks5());
+                let near_8k = [8192 - hs - 1, 8192 - hs, 8192 - hs + 1, 8192][(start + i) % 4];
+                all.push(mk(r, *e, Mode::ClientFirst, near_8k, near_8k + longer[(i + 3) % 4], j(0), 0));
+                all.push(mk(r, *e, [Mode::Duplex, Mode::Echo][i % 2], [20_000usize, 9000, 70_000][i % 3], 65_536 + [20_000usize, 9000, 70_000][i % 3], j(0), 0));
+                all.push(mk(r, *e, Mode::ClientFirst, [512usize, 4096, 600][i % 3], [100usize, 300, 499][i % 3], j(1), 0));
             }
         }
         Tier::Thorough => {
@@ -454,19 +463,19 @@ fn early_pass(r: &mut Rng, tier: Tier) -> Vec<Scn> {
                             let slow = if n % 9 == 0 { 50 } else { 0 };
                             if mode == Mode::ClientFirstHold {
                                 // the upload (early part included) first, then the target answers message by message
-                                mk(r, e, mode, early, up, *joined, [0u64, 20][n % 2]);
+                                all.push(mk(r, e, mode, early, up, *joined, [0u64, 20][n % 2]));
                                 let s = all.last_mut().expect("just pushed");
                                 s.down = [1usize, 100, 3000][n % 3];
                                 s.downc = Chunk::Whole;
                             } else {
-                                mk(r, e, mode, early, up, *joined, slow);
+                                all.push(mk(r, e, mode, early, up, *joined, slow));
                             }
                         }
                     }
                     if *joined {
                         // greeting + request in one write and no payload behind them
-                        mk(r, e, Mode::Echo, 0, 513, true, 0);
-                        mk(r, e, Mode::TargetFirst, 0, 100, true, 0);
+                        all.push(mk(r, e, Mode::Echo, 0, 513, true, 0));
+                        all.push(mk(r, e, Mode::TargetFirst, 0, 100, true, 0));
                     }
                 }
             }
@@ -876,7 +885,7 @@ fn main() {
     if let Some(p) = &args.replay {
         std::process::exit(replay(p));
     }
-    let rule = "scenario = 1-4 concurrent local TCP connections (entry point kind, close order incl. dialogues after a half-close and peers that half-close at once and read late, payload sizes, chunkings) or one UDP \
+    let rule = "scenario = 1-4 concurrent local TCP connections (entry point kind, close order incl. dialogues after a half-close and peers that half-close at once and read late, payload sizes, chunkings, local clients that send the beginning of their upload together with their SOCKS / HTTP CONNECT request before reading the reply) or one UDP \
 scenario (1-4 local UDP clients x tagged echo targets x payload sizes, via UDP remotes or SOCKS5 UDP associations; also after an idle \
 time, one-way streams longer than two idle timeouts that the target answers only at the end, and exchanges after a malformed \
 datagram on the relay socket of a SOCKS5 association, and long flows: up to 1100 exchanges on the same sockets, more than \
@@ -1046,6 +1055,8 @@ was propagated; distinct by scenario text";
     let (mut hold_msgs, mut hold_max_ms) = (0usize, 0u64);
     // late-reading peers: connections, bytes read by the late reader, of them complete with a clean end-of-stream
     let (mut late_conns, mut late_bytes, mut late_clean, mut late_max_ms) = (0usize, 0usize, 0usize, 0u64);
+    // optimistic data: connections, bytes sent with the handshake, connections whose target read the whole upload
+    let (mut early_conns, mut early_sent, mut early_whole) = (0usize, 0usize, 0usize);
     for (i, sc) in scs.iter().enumerate() {
         let (mut out, mt) = outcomes[i].take().expect("outcome");
         if let Outcome::Infra(e) = &out {
@@ -1136,6 +1147,11 @@ was propagated; distinct by scenario text";
                 hold_max_ms = hold_max_ms.max(s.confirm_ms.iter().copied().max().unwrap_or(0));
             }
             if let Scn::Tcp(v) = sc {
+                for (s, c) in v.iter().zip(obs.iter()).filter(|(s, _)| s.is_early()) {
+                    early_conns += 1;
+                    early_sent += s.early_bytes();
+                    early_whole += usize::from(s.early_bytes() > 0 && c.target.as_ref().is_some_and(|t| t.received.len() == s.up));
+                }
                 for (s, c) in v.iter().zip(obs.iter()).filter(|(s, _)| s.mode.is_late()) {
                     let (late, bulk) = if s.mode == Mode::LateTarget { (c.target.as_ref(), s.up) } else { (Some(&c.client), s.down) };
                     late_conns += 1;
@@ -1169,6 +1185,18 @@ was propagated; distinct by scenario text";
                         rep.count(&format!("tcp/{fam}/bulk-KiB/{}", bulk / KIB));
                         rep.count(&format!("tcp/{fam}/rcvbuf-KiB/{}", if s.rcvbuf == 0 { "default".to_string() } else { (s.rcvbuf / KIB).to_string() }));
                         rep.count(&format!("tcp/{fam}/reader/{}", if s.pace_ms == 0 { "full-speed".to_string() } else { format!("pause-{}-ms-per-32-KiB", s.pace_ms) }));
+                    }
+                    if s.is_early() {
+                        let fam = "tcp/early-data";
+                        let n = s.early_bytes();
+                        rep.count(fam);
+                        rep.count(&format!("{fam}/entry/{}", s.entry.text()));
+                        rep.count(&format!("{fam}/mode/{}", s.mode.text()));
+                        rep.count(&format!("{fam}/early-bytes/{}", match n { 0 => "0", 1 => "1", 2..=100 => "2..100", 101..=498 => "101..498", 499..=513 => "499..513", 514..=4096 => "514..4096", 4097..=8160 => "4097..8160", 8161..=8193 => "8161..8193", _ => ">8193" }));
+                        rep.count(&format!("{fam}/whole-upload/{}", match s.up.cmp(&s.early) { std::cmp::Ordering::Less => "shorter-than-early", std::cmp::Ordering::Equal => "equal-to-early", std::cmp::Ordering::Greater => "longer-than-early" }));
+                        if s.entry.is_socks5() {
+                            rep.count(&format!("{fam}/socks5/{}", if s.hello_joined { "greeting+request+payload-in-one-write" } else { "greeting-alone-then-request+payload" }));
+                        }
                     }
                     if s.mode.is_hold() {
                         let (n, c) = if s.mode == Mode::ClientFirstHold { (s.down, &s.downc) } else { (s.up, &s.upc) };
@@ -1251,6 +1279,9 @@ was propagated; distinct by scenario text";
     ));
     rep.notes.push(format!(
         "late-reading peers: {late_conns} connection(s) where one end sent a short message (or nothing), half-closed at once, made its receive buffer small and began to read 0.3 .. 2.5 s later (slowly or at full speed) while the other end wrote 64 KiB .. 3 MiB, half-closed and closed; the late readers read {late_bytes} bytes, {late_clean} of {late_conns} got every byte followed by a clean end-of-stream; slowest connection {late_max_ms} ms"
+    ));
+    rep.notes.push(format!(
+        "optimistic data: {early_conns} connection(s) whose local client wrote the beginning of its upload ({early_sent} bytes in all) in the same write as the last message of its SOCKS4 / SOCKS4a / SOCKS5 / HTTP CONNECT handshake and read the proxy's reply only afterwards (SOCKS5: greeting alone first, or greeting + request + payload in one write); judged by the ordinary rules (every byte at the target, in order, exactly once); in {early_whole} of them the target read the complete upload (the others: modes in which the client sends nothing, or failures)"
     ));
     rep.notes.push(format!(
         "SOCKS5 UDP reply headers (all well-formed, payload recovered): DST.ADDR/DST.PORT named the remote host in {hdr_remote}, the local client's own address in {hdr_client}, something else in {hdr_other} replies"
